@@ -4,8 +4,10 @@
 patch=$1; budget=$2; shift 2
 cd /repo || exit 2
 if [ -n "$(git status --porcelain)" ]; then echo "/repo is dirty, refusing"; exit 2; fi
-git apply "$patch" || { echo "patch does not apply"; exit 2; }
-trap 'git -C /repo checkout -- . ; git -C /repo clean -fdq -- . 2>/dev/null' EXIT INT TERM
+trap 'git -C /repo reset -q --hard HEAD ; git -C /repo clean -fdq -- . 2>/dev/null' EXIT INT TERM
+# older seeded changes were written against an earlier HEAD: fall back to a three-way merge
+git apply "$patch" 2>/dev/null || git apply --3way "$patch" 2>/dev/null || { echo "patch does not apply"; exit 2; }
+if git diff --name-only --diff-filter=U | grep -q .; then echo "patch does not apply (conflict)"; exit 2; fi
 for p in "$@"; do
   out=$(cd /verif && VERIF_BUDGET_S=$budget ./check $p quick 2>&1)
   rc=$?
